@@ -258,6 +258,13 @@ ReadCBar(r) ==    \* text without the start/stop characters
        IN IF (\E i \in 1..n : cs[i] < 0) \/ (\E i \in 1..n - 1 : r[8 * i] # 1) \/ cs[1] < 16 \/ cs[n] < 16
              \/ (\E i \in 2..n - 1 : cs[i] >= 16) THEN Fail
           ELSE Good([i \in 1..n - 2 |-> CBarAlphabet[cs[i + 1] + 1]])
+\* the same reading with the start / stop characters kept (RETURN_CODABAR_START_END)
+ReadCBarSE(r) ==
+  LET in == ReadCBar(r) IN
+  IF ~in.ok THEN Fail
+  ELSE LET n == (Len(r) + 1) \div 8
+           gs == IndexIn(CBar, SubSeq(r, 1, 7)) - 1   ge == IndexIn(CBar, SubSeq(r, 8 * n - 7, 8 * n - 1)) - 1
+       IN Good(<<CBarAlphabet[gs + 1]>> \o in.text \o <<CBarAlphabet[ge + 1]>>)
 
 (* ================================================================== dispatch *)
 \* sym: "EAN13" "EAN8" "UPCA" "UPCE" "C128" "C93" "C39" "C39X" "C39K" "ITF" "CBAR" "MULTI"
@@ -265,7 +272,7 @@ ReadSym(sym, r) ==
   CASE sym = "EAN13" -> ReadEAN13(r) [] sym = "EAN8" -> ReadEAN8(r) [] sym = "UPCA" -> ReadUPCA(r)
     [] sym = "UPCE" -> ReadUPCE(r) [] sym = "C128" -> Read128(r) [] sym = "C93" -> Read93(r)
     [] sym = "C39" -> Read39(r, FALSE) [] sym = "C39X" -> Read39(r, TRUE) [] sym = "C39K" -> Read39K(r)
-    [] sym = "ITF" -> ReadITF(r) [] sym = "CBAR" -> ReadCBar(r)
+    [] sym = "ITF" -> ReadITF(r) [] sym = "CBAR" -> ReadCBar(r) [] sym = "CBARSE" -> ReadCBarSE(r)
     [] sym = "MULTI" -> LET a == ReadEAN13(r) b == ReadEAN8(r) c == ReadUPCE(r) IN      \* multi-format UPC/EAN reader, no hints
                         IF a.ok THEN a ELSE IF b.ok THEN b ELSE c
     [] OTHER -> Fail
